@@ -674,45 +674,49 @@ impl Check for C15 {
             if ctx.violations.iter().any(|v| v.sig == sig) {
                 continue;
             }
-            ctx.pre_violation(&sig, &what, &json!({"spec": sv}));
-            ctx.progress("minimise");
-            // shrink: fewer contexts, smaller depth, no prefix
-            let mut cur = spec.clone();
-            let fails = |s: &PathSpec| examine(s, None).iter().any(|(x, _)| x == &sig);
-            while cur.contexts.len() > 1 {
-                let mut cand = cur.clone();
-                cand.contexts.remove(0);
-                if fails(&cand) {
-                    cur = cand;
-                    continue;
-                }
-                let mut cand = cur.clone();
-                cand.contexts.pop();
-                if fails(&cand) {
-                    cur = cand;
-                    continue;
-                }
-                break;
-            }
-            while cur.depth > 0 {
-                let mut cand = cur.clone();
-                cand.depth -= 1;
-                cand.call_style.truncate(cand.depth);
-                cand.prefix.truncate(cand.depth + 1);
-                if fails(&cand) {
-                    cur = cand;
-                } else {
-                    break;
-                }
-            }
+            ctx.violation(sig, what, json!({"spec": sv, "module": module_json(&build(&spec).module)}));
+        }
+    }
+    fn minimise(&self, replay: &Json, sig: &Json) -> Json {
+        let Some(spec) = replay.get("spec").and_then(|s| serde_json::from_value::<PathSpec>(s.clone()).ok()) else {
+            return replay.clone();
+        };
+        // shrink: fewer contexts, smaller depth, no prefix
+        let mut cur = spec.clone();
+        let fails = |s: &PathSpec| examine(s, None).iter().any(|(x, _)| x == sig);
+        while !cur.contexts.is_empty() {
             let mut cand = cur.clone();
-            cand.prefix = vec![0; cand.depth + 1];
-            cand.nested = 0;
+            cand.contexts.remove(0);
             if fails(&cand) {
                 cur = cand;
+                continue;
             }
-            ctx.violation(sig, what, json!({"spec": cur, "module": module_json(&build(&cur).module)}));
+            let mut cand = cur.clone();
+            cand.contexts.pop();
+            if fails(&cand) {
+                cur = cand;
+                continue;
+            }
+            break;
         }
+        while cur.depth > 0 {
+            let mut cand = cur.clone();
+            cand.depth -= 1;
+            cand.call_style.truncate(cand.depth);
+            cand.prefix.truncate(cand.depth + 1);
+            if fails(&cand) {
+                cur = cand;
+            } else {
+                break;
+            }
+        }
+        let mut cand = cur.clone();
+        cand.prefix = vec![0; cand.depth + 1];
+        cand.nested = 0;
+        if fails(&cand) {
+            cur = cand;
+        }
+        json!({"spec": cur, "module": module_json(&build(&cur).module)})
     }
     fn replay(&self, replay: &Json, ctx: &mut CaseCtx) {
         let Some(spec) = replay.get("spec").and_then(|s| serde_json::from_value::<PathSpec>(s.clone()).ok()) else { return };
